@@ -55,6 +55,23 @@ Definition baseline_fetch_prefix (fd dir nm nm' txid : N) (ws : list N) : list s
 Definition baseline_fetch (fd dfd dir nm nm' txid : N) (ws : list N) : list syscall :=
   publish fd dfd (mkPath dir nm' CTmp) (mkPath dir nm (CLtx 0 0 txid txid)) ws.
 
+(** legacy v0.3.x restore (replica.go RestoreV3): downloadSnapshotV3 is
+    Create(tmp); io.Copy; Sync; Close.  With WAL segments, applyWALSegmentsV3
+    then lets SQLite checkpoint them into the same file: open(tmp, O_RDWR|O_CREAT)
+    (no truncation), pwrites, ftruncate, fsync, close -- [ckpt].  With no
+    segments it returns at once ([pw = None]).  Then Rename; FsyncDir; return. *)
+Definition v3_checkpoint (fd2 : N) (tmp : path) (pw : list (N * N)) (size : N) : list syscall :=
+  Creat fd2 tmp false :: map (fun ol => Pwrite fd2 (fst ol) (snd ol)) pw ++ [Ftruncate fd2 size; Fsync fd2; Close fd2].
+
+Definition restore_v3_seq (fd fd2 dfd : N) (tmp final : path) (ws : list N)
+           (ckpt : option (list (N * N) * N)) : list syscall :=
+  stage fd tmp ws ++
+  match ckpt with Some (pw, size) => v3_checkpoint fd2 tmp pw size | None => [] end ++
+  Rename tmp final :: fsync_dir dfd final ++ [Ack final].
+
+Definition restore_v3 (fd fd2 dfd dir nm nm' : N) (ws : list N) (ckpt : option (list (N * N) * N)) : list syscall :=
+  restore_v3_seq fd fd2 dfd (mkPath dir nm' CTmp) (mkPath dir nm (CFinal false)) ws ckpt.
+
 (** content written by the staging phase: one [W] per write at the running offset *)
 Fixpoint wlog (off : N) (ws : list N) : content :=
   match ws with
